@@ -33,19 +33,39 @@ def rules(fx, rep):
             rep.fail('EXP', 'clear_h:%s:derivable' % g, 'multiplier not derivable: %s at %s' % (e, getattr(e, 'where', None)), where)
             continue
         rep.sites(I.call_sites)
-        if len(res) != 1:
-            rep.fail('EXP', 'clear_h:%s:derivable' % g, 'clear_h has %d paths (data-dependent control flow): not a fixed multiple of the input' % len(res), where)
-            continue
-        pth, ret, outs = res[0]
-        v = outs.get(1)
-        if not isinstance(v, exp.Lin):
-            rep.fail('EXP', 'clear_h:%s:multiplier' % g, 'result is not a multiple of the input (TOP)', where)
-            continue
-        rep.check(v.atoms() <= {'P'}, 'EXP', 'clear_h:%s:pure-multiple' % g, 'result is [k]P', 'result depends on %s' % sorted(v.atoms()), where)
-        k = v.coeff('P')
-        rep.check(k == heff, 'EXP', 'clear_h:%s:multiplier' % g,
-                  '[k]P with k == h_eff (%d group operations interpreted)' % I.call_sites,
-                  'clear_h multiplies by %#x, RFC 9380 h_eff is %#x' % (k, heff), where)
+        # every path: the general one must be the fixed multiple; a path taken only for the identity (an is_zero test of
+        # the input answered true) may return any multiple of the input, since [k]O = O = [h_eff]O
+        import tt
+        P = exp.Lin.atom('P')
+        kz = ('is_zero', tt.lin_key(P))
+        general = 0
+        bad = None
+        kk = None
+        for pth, ret, outs in res:
+            if isinstance(ret, tuple) and ret and ret[0] == 'diverges':
+                continue
+            v = outs.get(1)
+            lits = tt.path_literals(pth)
+            other = [l for l in lits if l[0] != kz]
+            if other:
+                bad = 'clear_h branches on %r (data-dependent control flow other than an identity test of the input): not a fixed multiple of the input' % (other[0][2],)
+                break
+            ident = any(l[0] == kz and l[1] for l in lits)
+            if not isinstance(v, exp.Lin) or not v.atoms() <= {'P'}:
+                bad = 'result is not a multiple of the input: %r' % (v,)
+                break
+            if ident:
+                continue
+            general += 1
+            kk = v.coeff('P')
+            if kk != heff:
+                bad = 'clear_h multiplies by %#x, RFC 9380 h_eff is %#x' % (kk, heff)
+                break
+        if bad is None and not general:
+            bad = 'no path handles a non-identity input'
+        rep.check(bad is None, 'EXP', 'clear_h:%s:multiplier' % g,
+                  '[k]P with k == h_eff on every path for a non-identity input, a multiple of the input on identity-only paths (%d group operations interpreted)' % I.call_sites,
+                  bad or '', where)
     # the two chains on their own (roles: generic fns of the module taking (&mut P, &P))
     for name, expected in (('abs_x', -M.X),):
         p = roles.roles(fx).get('chain_abs_x')
